@@ -52,8 +52,15 @@ def run_arrays(rng, thorough, out):
             else:
                 ts = rng.random(nel) < 0.6
                 rs = rng.random(nel) < 0.6 if k % 2 else ts.copy()
-            r = Rule(g, order, ts, rs)
-            arr = r.get_arrays()
+            try:
+                r = Rule(g, order, ts, rs)
+                arr = r.get_arrays()
+            except Exception as ex:   # an exception on a valid grid/order is a failing input of the implementation
+                out["failures"].append({"signature": "singular_assembler.get_arrays:raises-on-valid-input",
+                                        "what": "get_arrays() raised %s(%s) on %s, singular order %d" % (
+                                            type(ex).__name__, str(ex)[:120], tag, order),
+                                        "data": {"mesh": tag, "order": order, "vertices": v.tolist(), "elements": e.tolist()}})
+                continue
             cases.append({"tag": tag, "order": order, "ts": [bool(b) for b in ts], "rs": [bool(b) for b in rs],
                           "ea": ea, "va": va,
                           "test_indices": [int(x) for x in arr[3]], "trial_indices": [int(x) for x in arr[4]],
@@ -104,7 +111,14 @@ def run_rule(rng, thorough, out):
     full = (1, 2, 3, 4) if thorough else (1, 2, 3)
     structural = (4, 5) if thorough else (4,)
     for order in sorted(set(full) | set(structural)):
-        arr = Rule(g, order, ones, ones).get_arrays()
+        try:
+            arr = Rule(g, order, ones, ones).get_arrays()
+        except Exception as ex:
+            out["failures"].append({"signature": "singular_assembler.get_arrays:raises-on-valid-input",
+                                    "what": "get_arrays() raised %s(%s) on the tetrahedron, singular order %d" % (
+                                        type(ex).__name__, str(ex)[:120], order),
+                                    "data": {"mesh": "tetrahedron", "order": order}})
+            continue
         tp, rp, w = arr[0], arr[1], arr[2]
         rec = {"tp": [[fr(tp[0, i]), fr(tp[1, i])] for i in range(tp.shape[1])],
                "rp": [[fr(rp[0, i]), fr(rp[1, i])] for i in range(rp.shape[1])],
@@ -136,6 +150,15 @@ def operator_vectors(v, e, a, b, orders, which):
     for reg, sing in orders:
         api.GLOBAL_PARAMETERS.quadrature.regular = reg
         api.GLOBAL_PARAMETERS.quadrature.singular = sing
+        try:
+            res.append(_one_vector(which, laplace, sparse, p1, dp0, gv, psi))
+        except Exception as ex:
+            res.append({"error": "%s(%s)" % (type(ex).__name__, str(ex)[:160])})
+    return res
+
+
+def _one_vector(which, laplace, sparse, p1, dp0, gv, psi):
+    if True:
         if which == "V":
             vec = laplace.single_layer(dp0, dp0, dp0, assembler="dense").weak_form().to_dense() @ psi
         elif which == "K":
@@ -148,13 +171,16 @@ def operator_vectors(v, e, a, b, orders, which):
             Kt = laplace.adjoint_double_layer(dp0, p1, p1, assembler="dense").weak_form().to_dense()
             Mt = sparse.identity(dp0, p1, p1).weak_form().to_sparse()
             vec = 0.5 * (Mt @ psi) - Kt @ psi
-        res.append([float(x) for x in vec])
-    return res
+        return [float(x) for x in vec]
 
 
 def calderon_residuals(v, e, a, b, orders):
     """Both residuals for each order (single process; used by replays)."""
     vec = {w: operator_vectors(v, e, a, b, orders, w) for w in ("V", "K", "W", "Kt")}
+    for w in vec:
+        for x in vec[w]:
+            if isinstance(x, dict):
+                raise RuntimeError("assembly of %s raised %s" % (w, x["error"]))
     return [residual_pair(vec["V"][k], vec["K"][k], vec["W"][k], vec["Kt"][k]) for k in range(len(orders))]
 
 
@@ -210,8 +236,18 @@ def run_search(rng, thorough, out, which):
     res = []
     for tag, name, v, e, a, b, orders in search_meshes(rng, thorough):
         t0 = time.time()
-        vecs = operator_vectors(v, e, a, b, orders, which)
+        try:
+            vecs = operator_vectors(v, e, a, b, orders, which)
+        except Exception as ex:   # Grid / function_space on a valid closed mesh
+            vecs = [{"error": "%s(%s)" % (type(ex).__name__, str(ex)[:160])} for _ in orders]
         log("%s %s: %.1fs" % (which, tag, time.time() - t0))
+        for o, x in zip(orders, vecs):
+            if isinstance(x, dict):
+                out["failures"].append({"signature": "laplace-operator-assembly:raises-on-valid-input",
+                                        "what": "assembling the operator family %s raised %s on %s at orders %s" % (
+                                            which, x["error"], tag, list(o)),
+                                        "data": {"mesh": name, "vertices": v.tolist(), "elements": e.tolist(),
+                                                 "a": a.tolist(), "b": b, "orders": [list(o)]}})
         res.append({"tag": tag, "mesh": name, "vertices": v.tolist(), "elements": e.tolist(), "a": a.tolist(), "b": b,
                     "orders": orders, "vectors": vecs})
     out["vectors"] = {"which": which, "cases": res}
@@ -232,10 +268,29 @@ def main():
         run_search(rng, thorough, out, cfg["operator"])
     if "topo" in parts:
         run_topo(rng, thorough, out)
+    if "replay_arrays" in parts:
+        from bempp_cl.api import Grid
+        from bempp_cl.core.singular_assembler import _SingularQuadratureRuleInterfaceGalerkin as Rule
+        d = cfg["input"]
+        v, e = (np.array(d["vertices"]), np.array(d["elements"], dtype="uint32")) if "vertices" in d else M.tetrahedron()
+        try:
+            g = Grid(v, e)
+            ones = np.ones(g.number_of_elements, dtype=bool)
+            Rule(g, int(d["order"]), ones, ones).get_arrays()
+        except Exception as ex:
+            out["failures"].append({"signature": "singular_assembler.get_arrays:raises-on-valid-input",
+                                    "what": "replayed: get_arrays() raised %s(%s)" % (type(ex).__name__, str(ex)[:120]), "data": d})
+        out["search_evals"] = 1
     if "replay" in parts:
         d = cfg["input"]
-        r = calderon_residuals(np.array(d["vertices"]), np.array(d["elements"], dtype="uint32"), np.array(d["a"]), d["b"],
-                               [tuple(o) for o in d["orders"]])
+        try:
+            r = calderon_residuals(np.array(d["vertices"]), np.array(d["elements"], dtype="uint32"), np.array(d["a"]), d["b"],
+                                   [tuple(o) for o in d["orders"]])
+        except Exception as ex:
+            out["failures"].append({"signature": "laplace-operator-assembly:raises-on-valid-input",
+                                    "what": "replayed: %s" % str(ex)[:300], "data": d})
+            print("@@JSON " + json.dumps(out))
+            return
         out["search_evals"] = len(d["orders"])
         out["worst"] = {"replay": r}
         for idx in (0, 1):
